@@ -4,6 +4,7 @@ One symbolic token vector, two symbolic separator vectors, the live grammar enco
 stream accepted under one layout and rejected under the other?  Every model is rendered both ways and the
 real parser's verdicts / canonical tree projections are compared; only a real difference is reported.
 """
+import os
 import time
 
 import z3
@@ -144,8 +145,57 @@ def run(tier):
              bounds="length<=%d, %d separator kinds per boundary" % (N, len(seps)))
     s.pop()
     rep.paths += len(E1.defs) + len(E2.defs)
+    canonical_vs_layouts(rep, tier, G, parser, project)
     rep.extra["rule"] = "states = Boolean definitions of the two grammar encodings; transitions = SMT queries"
     return rep.finish()
+
+
+def canonical_vs_layouts(rep, tier, G, parser, project):
+    """A cheaper, deeper variant of the layout query: one side is the canonical layout (one blank between tokens, a
+    much smaller encoding), the other side has a symbolic separator at every boundary drawn from four kinds (nothing,
+    blank, blank-comment-blank, glued comment).  exists t, s: accept_canonical(t) != accept(t, s)?"""
+    quick = tier == "quick"
+    NL = int(os.environ.get("VERIF_C12_NL", 0)) or (9 if quick else 12)
+    seps = ((), ("W",), ("W", 0, "W"), (0,))
+    tok, length = gram.mk_stream(NL, "l")
+    t0 = time.time()
+    try:
+        Ef = gram.Enc(G, NL, tok, length, "lf", mode="peg", sep_fixed=1)
+        Ev = gram.Enc(G, NL, tok, length, "lv", seps=seps)
+        accf, accv = Ef.accepts(), Ev.accepts()
+    except gram.Unsupported as ex:
+        rep.harness_error("grammar uses a construct the encoder does not support: %s" % ex)
+        return
+    t_enc = time.time() - t0
+    s = gcommon.new_solver(600 if quick else 3600)
+    s.add(Ef.defs); s.add(Ev.defs); s.add(gram.stream_constraints(G, NL, tok, length))
+    s.add(Ef.default_domain()); s.add(Ef.include_domain())
+    s.add(Ev.domain()); s.add(Ev.default_domain()); s.add(Ev.include_domain())
+    verdict, total = "confirmed", 0.0
+    for name, q in (("canonical accepts, a layout rejects", z3.And(accf, gram.Not_(accv))), ("a layout accepts, canonical rejects", z3.And(accv, gram.Not_(accf)))):
+        s.push(); s.add(q)
+        r, m, dt = gcommon.check(s, rep, "canonical-layout", NL)
+        total += dt
+        if r == "sat":
+            a, b = Ef.render(m), Ev.render(m)
+            oa, ob = real_outcome(parser, project, a), real_outcome(parser, project, b)
+            rep.extra["replayed"] = rep.extra.get("replayed", 0) + 1
+            if oa != ob:
+                verdict = "counterexample"
+                rep.violation("two layouts of the same tokens differ: %r -> %s, %r -> %s" % (a, oa[0] if oa[0] == "tree" else oa, b, ob[0] if ob[0] == "tree" else ob),
+                              dict(kind="c12-layout", a=a, b=b))
+            else:
+                rep.harness_error("canonical-layout model did not reproduce: %r / %r both give %s" % (a, b, oa[0]))
+                verdict = "error"
+            s.pop()
+            break
+        if r != "unsat":
+            verdict = "inconclusive(timeout)"
+        s.pop()
+    rep.cond("c12.canonical_vs_layouts", "z3 grammar encoding (canonical layout) vs z3 grammar encoding (symbolic separators)", verdict, total + t_enc,
+             "exists tokens t and separators s with accept(t, canonical) != accept(t, s)?", bounds="length<=%d, %d separator kinds per boundary" % (NL, len(seps)))
+    rep.paths += len(Ef.defs) + len(Ev.defs)
+    rep.bounds["canonical_vs_layouts"] = {"max_tokens": NL, "separators": ["", "<ws>", "<ws>/*c*/<ws>", "/*c*/"]}
 
 
 def replay(payload):
